@@ -57,7 +57,7 @@ Lemma decode_vdata c t rest : c <> OFlac -> vc_valid t = true -> vc_fits32 t = t
   match c with
   | OVorbis => if ogg_f_all_zero rest then Ok (t, zlen rest) else Raise EMutagen
   | OOpus => match rest with
-             | b :: _ => if ogg_f_odd b then Ok (t, -1) else if ogg_f_all_zero rest then Ok (t, zlen rest) else Raise EMutagen
+             | b :: _ => if ogg_f_odd b then Ok (t, -1) else Ok (t, zlen rest)
              | [] => Ok (t, 0) end
   | _ => if ogg_f_all_zero rest then Ok (t, zlen rest) else Raise EMutagen
   end.
@@ -95,7 +95,7 @@ Proof.
       * assert (Z.max 0 n = 0) as ->; [|reflexivity]. rewrite <- zlen_zeros_max, E. reflexivity.
       * assert (b = 0) as ->.
         { unfold zeros in E. destruct (Z.to_nat n); [discriminate|]. cbn [repeat] in E. inversion E. reflexivity. }
-        cbn [ogg_f_odd Z.odd]. rewrite <- E, all_zero_zeros. reflexivity.
+        cbn [ogg_f_odd Z.odd]. reflexivity.
   - destruct S as [(X & _)|(_ & ->)]; [discriminate|].
     rewrite decode_vdata by (try discriminate; assumption). rewrite all_zero_zeros, zlen_zeros_max. destruct pad; reflexivity.
   - destruct S as [(X & _)|(_ & ->)]; [discriminate|].
